@@ -216,6 +216,73 @@ def periodic_sync(ctx, prog, eff, rid):
     ctx.floor(rid, 'periodic-sync obligations (rotation, two tickers, sync_wal)', sum(1 for x in ctx.instances if x.get('config') == ctx.config and x['rule'] == rid), 4, 'counted')
 
 
+def orphan_scan(ctx, prog, rid):
+    """C01.R16 = C13.R10 (F18 / F20): what the server's start-up takes for "this directory holds a database although its MANIFEST is gone"."""
+    main = ctx.body(rid, 'kyrodb_server::main')
+    if main is None:
+        return
+    scans = [b for b in prog.family(main) if any(c.callee and c.callee.endswith('DirEntry::file_name') for c in b.calls)]
+    if len(scans) != 1:
+        ctx.missing(rid, 'main: the closure that classifies the entries of the data directory (found %d)' % len(scans))
+        return
+    sc = scans[0]
+    o = flow.Origin(sc)
+    lits = set()
+    for c in sc.calls:
+        if c.callee and re.search(r'str(>)?::(starts_with|ends_with)$', c.callee) and len(c.args) > 1:
+            r_ = flow.render(o.of_operand(c.args[1]))
+            if r_.startswith('"') and r_.endswith('"'):
+                lits.add((c.callee.rsplit('::', 1)[1], r_[1:-1]))
+    # the names the engine itself gives its files (writer side): format templates "wal_{}.wal" / "snapshot_{}.snap" under HnswBackend
+    names = {}
+    for fam, pre, suf, owners in (('log segments', 'wal_', '.wal', ('PersistenceState::rotate_wal_if_needed',)), ('snapshots', 'snapshot_', '.snap', ('HnswBackend::create_snapshot',))):
+        found = False
+        for ow in owners:
+            ob = ctx.body(rid, ow)
+            if ob is None:
+                continue
+            for fb_ in [ob] + [b_ for b_ in prog.family(ob) if b_.id.startswith(ob.id + '::')]:
+                oo = flow.Origin(fb_)
+                for c in fb_.calls:
+                    if c.callee and re.search(r'fmt::Arguments(<.*>)?::new', c.callee) and c.args:
+                        r_ = flow.render(oo.of_operand(c.args[0]))
+                        if re.search(re.escape(pre) + r'(\\x[0-9a-f]{2}){1,4}' + re.escape(suf), r_):      # prefix, one placeholder, suffix
+                            found = True
+        names[fam] = (pre, suf, found)
+    for fam, (pre, suf, found) in sorted(names.items()):
+        if not found:
+            ctx.missing(rid, 'writer side: the engine no longer names its %s %s*%s' % (fam, pre, suf))
+            continue
+        ok = ('starts_with', pre) in lits and ('ends_with', suf) in lits
+        ctx.inst(rid, 'kyrodb_server::main', 'the start-up scan recognises the engine\'s %s (%s*%s)' % (fam, pre, suf), ok,
+                 ('the scan tests %s: a directory whose MANIFEST was removed and that holds only %s is taken for a fresh one — the server starts empty over it' % (sorted(lits), fam)) if not ok else
+                 'tests starts_with("%s") and ends_with("%s")' % (pre, suf))
+    # a segment that holds only its header is NOT data: the first start-up creates its segment before it publishes the MANIFEST
+    hdr = prog.named_constants().get('kyrodb_engine::persistence::WAL_HEADER_LEN')
+    cw = ctx.body(rid, 'WalWriter::create_with_error_handler')
+    init = None
+    if cw is not None:
+        co = flow.Origin(cw)
+        for blk in cw.blocks:
+            for st in blk['s']:
+                rv = st.get('rv')
+                if rv and rv['k'] == 'agg' and rv.get('adt', '').endswith('persistence::WalWriter') and 'bytes_written' in (rv.get('fields') or []):
+                    init = flow.render(co.of_operand(rv['ops'][rv['fields'].index('bytes_written')]))
+    cmps = []
+    for fb in [sc] + [b for b in prog.family(main) if b.id.startswith(sc.id + '::')]:
+        r_ = flow.render(flow.Origin(fb).of_local(0))
+        for m_ in re.finditer(r'\(Metadata::len\([^()]*\) (Gt|Ge) ((?:\d+|\((?:\d+) (?:Add|AddWithOverflow) (?:\d+)\)(?:\.0)?))\)', r_):
+            rhs = m_.group(2)
+            m2 = re.match(r'^\((\d+) \w+ (\d+)\)(?:\.0)?$', rhs)
+            cmps.append((m_.group(1), int(rhs) if rhs.isdigit() else int(m2.group(1)) + int(m2.group(2))))
+    want = None if init is None or not init.isdigit() else int(init)
+    ok = want is not None and hdr == want and any((op == 'Gt' and n == want) or (op == 'Ge' and n == want + 1) for op, n in cmps)
+    ctx.inst(rid, 'kyrodb_server::main', 'a log segment that holds only its header does not count as data', ok,
+             ('a fresh segment is %s bytes long (WalWriter::create), WAL_HEADER_LEN = %s, length tests in the scan: %s — a first start-up killed between the creation of its segment and '
+              'the publication of the MANIFEST leaves a directory the next start-up refuses' % (init, hdr, cmps or 'none')) if not ok else
+             'length test %s against the header length %d that WalWriter::create starts from' % (cmps, want))
+
+
 def policy_mapping(ctx, prog, rid):
     """C01.R13: configuration value → engine fsync policy, edge by edge."""
     fam = prog.family(ctx.body(rid, 'kyrodb_server::main'))
@@ -825,4 +892,10 @@ def run(ctx, prog):
                         'installs in memory — update_metadata logs the map it assigns (the merged map, not the caller\'s delta; replay is a full replacement), insert logs '
                         'the vector and metadata it pushes, taken after the last in-place change')
     _c02.post_image_agreement(ctx, prog, 'C01.R15', ctx.body('C01.R15', 'HnswBackend::recover_with_hnsw_params_and_mode'))
+    # ------------------------------------------------------------------ R16 what start-up takes for a database without MANIFEST
+    ctx.rule('C01.R16', 'start-up without MANIFEST (F18, F20; = C13.R10): the scan of the data directory recognises both file families the engine writes (snapshot_*.snap, '
+                        'wal_*.wal — names taken from the writer side), so a lost MANIFEST is not mistaken for a fresh directory; and a log segment that holds only its '
+                        'header (its length compared with the header length WalWriter::create starts from) does not count, because the first start-up creates its '
+                        'segment before it publishes the MANIFEST and a kill in between must not leave a directory the next start-up refuses')
+    orphan_scan(ctx, prog, 'C01.R16')
     ctx.stat('functions_analysed', len(set(i['key'].split(' | ')[1] for i in ctx.instances)))
